@@ -48,7 +48,7 @@ def run(facts, rep):
     d1_scan_direction(facts, rep)
 
 
-def d1_scan_direction(facts, rep):
+def d1_scan_direction(facts, rep, clause='D1'):
     """A notifier that looks for a waiter to wake scans the wait set, a circular doubly linked list with a sentinel.  The scan
     covers every waiter only if its start and its step agree: front() with ->next, last() with ->prev (the loop ends at end()).
     A scan that starts at one end and steps towards that same end looks at one node only: when that node belongs to another
@@ -95,7 +95,7 @@ def d1_scan_direction(facts, rep):
             want = sorted(dirs)
             ok = len(dirs) == 1 and all(st == want[0] for st, _ in steps)
             vname = next((nd.get('n') for nd in fn.nodes if nd.get('k') == 'var' and nd.get('v') == vid), '?')
-            rep.ob('D1', 'K10', fn, 'the wait-set scan over `%s` steps in the direction of its start (%s)' % (vname, '/'.join(
+            rep.ob(clause, 'K10', fn, 'the wait-set scan over `%s` steps in the direction of its start (%s)' % (vname, '/'.join(
                    'front->next' if w == 'next' else 'last->prev' for w in want)), ok,
                    'the scan starts at %s but advances through ->%s (line %s): only one node is examined; a waiter of the notified object that '
                    'is not that node sleeps forever' % ('/'.join('front()' if w == 'next' else 'last()' for w in want),
